@@ -225,7 +225,7 @@ def _numeric_leaves(x, path=()):
 
 def binding_selftest(spec, cfg, files, scratch, samples=10, seed=1):
     """Demonstrate that the trace specification constrains what was recorded: take recorded events, change ONE numeric
-    field of each by one, and count how many of the corrupted events TLC rejects (a rejected event or a failed evaluation)."""
+    field of each (by an eighth of its value, at least 3), and count how many of the corrupted events TLC rejects (a rejected event or a failed evaluation)."""
     import random
     rng = random.Random(seed)
     events = []
@@ -248,7 +248,7 @@ def binding_selftest(spec, cfg, files, scratch, samples=10, seed=1):
         tgt = ev
         for key in path[:-1]:
             tgt = tgt[key]
-        tgt[path[-1]] += 1
+        tgt[path[-1]] += max(3, abs(tgt[path[-1]]) // 8)      # large enough to leave every tolerance band
         fp = scratch.path("selftest-%s-%d.ndjson" % (os.path.basename(spec).replace(".tla", ""), k))
         with open(fp, "w") as fh:
             fh.write(json.dumps(ev) + "\n")
